@@ -543,6 +543,23 @@ func c12Regressions() []c12Reg {
 			}
 		}
 	}
+	// contains on a SET haystack with a structural needle that holds an unknown (a seeded change answered from
+	// HasElement, which says false for such a needle); also tuples and lists as members, refined and unrefined unknowns
+	{
+		o := func(name cty.Value, age int64) cty.Value {
+			return cty.ObjectVal(map[string]cty.Value{"name": name, "age": cty.NumberIntVal(age)})
+		}
+		hay := cty.SetVal([]cty.Value{o(s("ann"), 31), o(s("bob"), 47)})
+		for _, u := range []cty.Value{cty.UnknownVal(cty.String), cty.UnknownVal(cty.String).RefineNotNull(), cty.UnknownVal(cty.String).Refine().NotNull().StringPrefixFull("a").NewValue()} {
+			jd = append(jd, c12Reg{"ContainsFunc", []cty.Value{hay, o(s("ann"), 31)}, []cty.Value{hay, o(u, 31)}})
+			jd = append(jd, c12Reg{"SetHasElementFunc", []cty.Value{hay, o(s("ann"), 31)}, []cty.Value{hay, o(u, 31)}})
+		}
+		tup := func(a, b cty.Value) cty.Value { return cty.TupleVal([]cty.Value{a, b}) }
+		hayT := cty.SetVal([]cty.Value{tup(s("x"), cty.True), tup(s("y"), cty.False)})
+		jd = append(jd, c12Reg{"ContainsFunc", []cty.Value{hayT, tup(s("x"), cty.True)}, []cty.Value{hayT, tup(s("x"), cty.UnknownVal(cty.Bool))}})
+		hayL := cty.SetVal([]cty.Value{l(s("p"), s("q")), l(s("r"))})
+		jd = append(jd, c12Reg{"ContainsFunc", []cty.Value{hayL, l(s("p"), s("q"))}, []cty.Value{hayL, l(s("p"), cty.UnknownVal(cty.String))}})
+	}
 	return append(jd, []c12Reg{
 		// escaped percent signs before the first verb and an unknown argument (prefix refinement of format)
 		{"FormatFunc", []cty.Value{s("100%% of %s"), s("disk")}, []cty.Value{s("100%% of %s"), cty.UnknownVal(cty.String)}},
